@@ -1,188 +1,285 @@
-(* C18 — save never destroys data. Property theorems only; lemmas are in Proofs/SaveFSProofs.v.
-   `save` is Model/SaveFS.v: the step list of ArgumentParser.save over a directory  name -> File c | Dir,
-   with validate / dump_using_format / get_content as an oracle carried by the input.
-   All statements quantify over EVERY input: any directory content, any number of sub-files in any
-   declaration order, any oracle (which step fails, including an injected n-th serialiser call). *)
-From JV Require Import Lib.Base Model.SaveFS Spec.SaveFSSpec Proofs.SaveFSProofs.
+(* C18 — save never destroys data. Property theorems only; lemmas are in Proofs/SaveFSProofs.v and
+   Proofs/C18JudgeProofs.v.
+
+   `save_fixed` (Model/SaveFS.v) is the model of ArgumentParser.save: the step list of the code over a
+   directory  name -> File text | Dir  — check and render every file, refuse two configs mapped to one
+   file, then write — with validate / dump_using_format / get_content as an oracle carried by the input.
+   Every statement below quantifies over EVERY input: any directory content, single- or multi-file mode,
+   any flags, any number of sub-files in any declaration order with any (also colliding) names, any oracle
+   (which validation / serialisation / read step fails, including an injected n-th serialiser call), any
+   form of the target path.  (a) no silent overwrite, (b) all-or-nothing and the frame statement carry NO
+   guard.  (c) read-back carries the guard  alias_clash i = false : not (multi-file, target path given in a
+   non-normal form such as ./main.yaml, and a sub-file named like the main file) — outside it the statement
+   is FALSE on the current tree (C18_collision_with_main_refuted, open finding
+   collision-with-main-unnormalised-path; fixes/C18-collision-realpath.patch makes the guard vacuous).
+
+   `save_old` is the order of the tree before the fix; the `..._old_order_refuted` theorems at the end are
+   regression witnesses of what that order did wrong, not findings on the current tree. *)
+From JV Require Import Lib.Base Model.SaveFS Spec.SaveFSSpec Proofs.SaveFSProofs Corr.C18Judge
+                       Proofs.C18JudgeProofs.
 
 (* ---- (a) no silent overwrite ------------------------------------------------------------- *)
-(* Without overwrite=True every regular file that existed is still there with the same content,
-   whether the save succeeds or fails, in single- and multi-file mode. *)
+(* Without overwrite=True every entry that existed (regular file or directory) is still there,
+   unchanged, whether the save succeeds or fails, in single- and multi-file mode. *)
 Theorem C18_no_silent_overwrite :
   forall i, i_overwrite i = false ->
-  forall n c, lookup (i_fs i) n = Some (File c) -> lookup (fst (save i)) n = Some (File c).
-Proof. exact no_silent_overwrite_lemma. Qed.
+  forall n x, lookup (i_fs i) n = Some x -> lookup (fst (save_fixed i)) n = Some x.
+Proof. exact fixed_no_overwrite_lemma. Qed.
 Print Assumptions C18_no_silent_overwrite.
 
-(* ... and an existing target is refused before anything happens *)
+(* ... an existing target is refused, and nothing has happened *)
 Theorem C18_existing_target_refused :
   forall i, i_overwrite i = false -> i_dir_ok i = true -> is_file (i_fs i) (i_main i) = true ->
-  save i = (i_fs i, Some ERefuse).
-Proof. exact existing_target_refused_lemma. Qed.
+  save_fixed i = (i_fs i, Some ERefuse).
+Proof. exact fixed_existing_target_refused_lemma. Qed.
 Print Assumptions C18_existing_target_refused.
 
-(* ... and an existing sub-file makes the multi-file save fail (by (a) it is left intact) *)
+(* ... an existing sub-file makes the whole multi-file save fail, and nothing has happened
+   (wherever the sub-file comes in the order, whatever was rendered before it) *)
 Theorem C18_existing_subfile_refused :
   forall i x, i_multifile i = true -> i_overwrite i = false ->
   In x (i_subs i) -> is_file (i_fs i) (s_name x) = true ->
-  exists e, snd (save i) = Some e.
-Proof. exact existing_subfile_refused_lemma. Qed.
+  exists e, save_fixed i = (i_fs i, Some e).
+Proof. exact fixed_existing_subfile_refused_lemma. Qed.
 Print Assumptions C18_existing_subfile_refused.
 
-(* Whatever the flags and the outcome, only the target names can change. *)
+(* Whatever the flags and the outcome (also with overwrite=True), only the target names can change. *)
 Theorem C18_only_targets_touched :
-  forall i m, m <> i_main i -> (i_multifile i = true -> ~ In m (map s_name (i_subs i))) ->
-  lookup (fst (save i)) m = lookup (i_fs i) m.
-Proof. exact save_frame_lemma. Qed.
+  forall i m, ~ In m (targets i) -> lookup (fst (save_fixed i)) m = lookup (i_fs i) m.
+Proof. exact fixed_frame_lemma. Qed.
 Print Assumptions C18_only_targets_touched.
 
 (* ---- (b) all-or-nothing on failure ---------------------------------------------------------
-   Full statement (FALSE on the pinned tree, see the two witnesses below):
-       forall i f' e, save i = (f', Some e) -> f' = i_fs i.
-   Proved: it holds in class 0, i.e. when the failure is a refused / uncreatable target (both modes) or
-   an invalid configuration in multi-file mode. Class 1 = single-file save whose dump() fails;
-   class 2 = multi-file save failing after validation. *)
+   EVERY failure — uncreatable or refused target or sub-file, invalid configuration, a serialisation
+   that raises (of any sub-config or of the main config, or the injected n-th call), an unreadable
+   save_path_content source, two configs mapped to one file — leaves the directory exactly as it was. *)
 Theorem C18_failed_save_changes_nothing :
-  forall i f' e, classify i = 0%N -> save i = (f', Some e) -> f' = i_fs i.
-Proof. exact failed_save_changes_nothing_lemma. Qed.
-Print Assumptions C18_failed_save_changes_nothing.
-
-(* the invalid-configuration half, multi-file mode, spelled out *)
-Theorem C18_multifile_invalid_changes_nothing :
-  forall i, target_check_fails i = false -> i_multifile i = true -> validate_fails i = true ->
-  save i = (i_fs i, Some EInvalid).
-Proof. exact validate_fail_save. Qed.
-Print Assumptions C18_multifile_invalid_changes_nothing.
-
-(* the precise boundary: a failure that comes before the first open()/write() leaves nothing behind *)
-Theorem C18_failure_before_first_open_changes_nothing :
-  forall i pre post e, steps i = pre ++ post -> forallb nowrite pre = true ->
-  snd (exec i pre (init i)) = Some e -> save i = (i_fs i, Some e).
-Proof. exact failure_before_first_open_lemma. Qed.
-Print Assumptions C18_failure_before_first_open_changes_nothing.
-
-Local Open Scope N_scope.
-Definition nm (k : N) : name := [k].
-
-(* existing x.yaml (text 7); save(Namespace(k='bad'), 'x.yaml', overwrite=True, multifile=False):
-   TypeError from validation and a zero-byte file *)
-Definition w_single : input :=
-  {| i_multifile := false; i_overwrite := true; i_skipval := false; i_dir_ok := true;
-     i_main := nm 120; i_fs := [(nm 120, File 7)]; i_valid := false; i_full := Out 8;
-     i_subs := []; i_mainr := Out 8; i_failcall := None |}.
-
-Theorem C18_single_file_truncates_refuted :
-  exists i f' e, save i = (f', Some e) /\ i_multifile i = false /\ classify i = 1%N /\
-                 lookup (i_fs i) (i_main i) = Some (File 7) /\ lookup f' (i_main i) = Some (File empty_text).
-Proof. exists w_single, [(nm 120, File 0)], EInvalid. vm_compute. repeat split. Qed.
-Print Assumptions C18_single_file_truncates_refuted.
-
-(* valid configuration with two sub-configs a (text 1) and b; the serialiser fails on b:
-   a has been written, the directory is no longer what it was *)
-Definition w_multi : input :=
-  {| i_multifile := true; i_overwrite := false; i_skipval := false; i_dir_ok := true;
-     i_main := nm 109; i_fs := []; i_valid := true; i_full := Fail;
-     i_subs := [ {| s_depth := 1%nat; s_branch := true; s_name := nm 97; s_src := SrcDump (Out 1) |};
-                 {| s_depth := 1%nat; s_branch := true; s_name := nm 98; s_src := SrcDump Fail |} ];
-     i_mainr := Out 3; i_failcall := None |}.
-
-Theorem C18_multifile_partial_refuted :
-  exists i f' e, save i = (f', Some e) /\ i_multifile i = true /\ classify i = 2%N /\
-                 i_fs i = [] /\ lookup f' (nm 97) = Some (File 1).
-Proof. exists w_multi, [(nm 97, File 1)], ERender. vm_compute. repeat split. Qed.
-Print Assumptions C18_multifile_partial_refuted.
-
-(* the last serialisation (main file) fails: every sub-file written and the existing main file emptied *)
-Definition w_multi_main : input :=
-  {| i_multifile := true; i_overwrite := true; i_skipval := false; i_dir_ok := true;
-     i_main := nm 109; i_fs := [(nm 109, File 7)]; i_valid := true; i_full := Fail;
-     i_subs := [ {| s_depth := 1%nat; s_branch := true; s_name := nm 97; s_src := SrcDump (Out 1) |} ];
-     i_mainr := Fail; i_failcall := None |}.
-
-Theorem C18_multifile_main_truncated_refuted :
-  exists i f' e, save i = (f', Some e) /\ classify i = 2%N /\
-                 lookup (i_fs i) (i_main i) = Some (File 7) /\ lookup f' (i_main i) = Some (File empty_text).
-Proof. exists w_multi_main, [(nm 109, File 0); (nm 97, File 1)], ERender. vm_compute. repeat split. Qed.
-Print Assumptions C18_multifile_main_truncated_refuted.
-
-(* The repaired order (check and render everything, then write; fixes/C18-render-before-write.patch)
-   satisfies the full statement: EVERY failure leaves the directory untouched. *)
-Theorem C18_fixed_order_all_or_nothing :
   forall i f' e, save_fixed i = (f', Some e) -> f' = i_fs i.
 Proof. exact fixed_all_or_nothing_lemma. Qed.
-Print Assumptions C18_fixed_order_all_or_nothing.
+Print Assumptions C18_failed_save_changes_nothing.
 
 (* ---- (c) a successful save can be parsed back ------------------------------------------------
    reparse_ok i f' : the main file holds the serialisation of the configuration (sub-configs
    replaced by their file names) and every sub-file holds the serialisation / original text /
    content it stands for — what parse_path needs to give the configuration back, the
-   serialise/parse round trip itself being C01's subject.
-   Full statement (FALSE, witnesses below): forall i f', save i = (f', None) -> reparse_ok i f' = true.
-   Proved in class 0: sub-file names pairwise distinct and different from the main file (else class 3),
-   no save_path_content file saved onto itself (else class 4). *)
+   serialise/parse round trip of one text being C01's subject.  A save_path_content file that lives
+   in the directory saved to keeps its content (expected = the content before the call). *)
 Theorem C18_save_then_parse :
-  forall i f', classify i = 0%N -> save i = (f', None) -> reparse_ok i f' = true.
-Proof. exact save_then_parse_lemma. Qed.
+  forall i f', alias_clash i = false -> save_fixed i = (f', None) -> reparse_ok i f' = true.
+Proof. exact fixed_save_then_parse_lemma. Qed.
 Print Assumptions C18_save_then_parse.
 
-(* two sub-configs loaded from a/s.yaml and b/s.yaml: both are saved as s.yaml, the second silently
-   replaces the first although the save "succeeds" *)
-Definition w_clash : input :=
-  {| i_multifile := true; i_overwrite := true; i_skipval := false; i_dir_ok := true;
+(* Two configs mapped to one file (equal basenames, or a sub-file named like the main file) are
+   refused instead of one silently replacing the other; nothing has happened. *)
+Theorem C18_name_collision_refused :
+  forall i, alias_clash i = false ->
+  i_multifile i = true -> name_clash i = true -> exists e, save_fixed i = (i_fs i, Some e).
+Proof. exact fixed_name_clash_refused_lemma. Qed.
+Print Assumptions C18_name_collision_refused.
+
+(* ... two SUB-files with one name: refused whatever the form of the target path (no guard) *)
+Theorem C18_subfile_collision_refused :
+  forall i, i_multifile i = true -> nodup_str (map s_name (i_subs i)) = false ->
+  exists e, save_fixed i = (i_fs i, Some e).
+Proof. exact fixed_subfile_clash_refused_lemma. Qed.
+Print Assumptions C18_subfile_collision_refused.
+
+(* The guard is the whole story: it holds as soon as the target path is in normal form (and always in
+   single-file mode), and it is exactly class 0 of the judge. *)
+Theorem C18_guard_normal_path :
+  forall i, i_alias i = false -> alias_clash i = false.
+Proof. exact alias_clash_no_alias. Qed.
+Print Assumptions C18_guard_normal_path.
+
+(* A directory in the place of any target makes the save fail as a whole; nothing has happened. *)
+Theorem C18_directory_in_the_way_refused :
+  forall i n, In n (targets i) -> is_dir (i_fs i) n = true -> exists e, save_fixed i = (i_fs i, Some e).
+Proof. exact fixed_directory_in_the_way_lemma. Qed.
+Print Assumptions C18_directory_in_the_way_refused.
+
+(* ---- model => spec, and the judge ------------------------------------------------------------
+   The model meets Spec/SaveFSSpec.v on every input ... *)
+Theorem C18_model_meets_spec :
+  forall i, alias_clash i = false ->
+            spec_ok (i_overwrite i) (targets i) (i_fs i) (fst (save_fixed i)) (is_some (snd (save_fixed i)))
+                    (reparse_ok i (fst (save_fixed i))) = true.
+Proof. exact fixed_meets_spec_lemma. Qed.
+Print Assumptions C18_model_meets_spec.
+
+(* ... and therefore every observation the model reproduces satisfies the spec: in the correspondence
+   in class 0 a spec failure can only appear together with a model disagreement. *)
+Theorem C18_judge_sound :
+  forall c, v_class (judge1 c) = 0%N -> v_model (judge1 c) = true -> v_spec (judge1 c) = true.
+Proof. exact judge_sound_lemma. Qed.
+Print Assumptions C18_judge_sound.
+
+Local Open Scope N_scope.
+Definition nm (k : N) : name := [k].
+
+(* ---- OPEN FINDING on the current tree: collision-with-main-unnormalised-path ---------------------
+   save(cfg, "./m", overwrite=True) where cfg.s was loaded from a/m: add_pending compares the absolute
+   path STRINGS  <cwd>/m  and  <cwd>/./m , misses the collision, the save succeeds and the main file
+   (written last) has replaced the sub-config: the saved path does not parse back. *)
+Definition w_alias : input :=
+  {| i_multifile := true; i_overwrite := true; i_skipval := false; i_dir_ok := true; i_alias := true;
      i_main := nm 109; i_fs := []; i_valid := true; i_full := Out 9;
-     i_subs := [ {| s_depth := 1%nat; s_branch := true; s_name := nm 115; s_src := SrcDump (Out 1) |};
-                 {| s_depth := 1%nat; s_branch := true; s_name := nm 115; s_src := SrcDump (Out 2) |} ];
+     i_subs := [ {| s_depth := 1%nat; s_branch := true; s_name := nm 109; s_src := SrcDump (Out 1) |} ];
      i_mainr := Out 3; i_failcall := None |}.
 
-Theorem C18_subfile_name_collision_refuted :
-  exists i f', save i = (f', None) /\ classify i = 3%N /\ reparse_ok i f' = false.
-Proof. exists w_clash, [(nm 115, File 2); (nm 109, File 3)]. vm_compute. repeat split. Qed.
-Print Assumptions C18_subfile_name_collision_refuted.
-
-(* save_path_content entry whose file (text 7) lives in the directory saved to, overwrite=True:
-   open(…,"w") comes before get_content(): the save succeeds and the file is empty *)
-Definition w_self : input :=
-  {| i_multifile := true; i_overwrite := true; i_skipval := false; i_dir_ok := true;
-     i_main := nm 109; i_fs := [(nm 102, File 7)]; i_valid := true; i_full := Out 9;
-     i_subs := [ {| s_depth := 2%nat; s_branch := false; s_name := nm 102; s_src := SrcPathHere |} ];
-     i_mainr := Out 3; i_failcall := None |}.
-
-Theorem C18_path_content_self_truncate_refuted :
-  exists i f', save i = (f', None) /\ classify i = 4%N /\
-               lookup (i_fs i) (nm 102) = Some (File 7) /\ lookup f' (nm 102) = Some (File empty_text).
-Proof. exists w_self, [(nm 102, File 0); (nm 109, File 3)]. vm_compute. repeat split. Qed.
-Print Assumptions C18_path_content_self_truncate_refuted.
+Theorem C18_collision_with_main_refuted :
+  exists i f', save_fixed i = (f', None) /\ classify i = 1 /\ name_clash i = true /\ reparse_ok i f' = false /\
+               save_fixed (no_alias i) = (i_fs i, Some EClash).
+Proof. exists w_alias, [(nm 109, File 3)]. vm_compute. repeat split. Qed.
+Print Assumptions C18_collision_with_main_refuted.
 
 (* ---- the hypotheses are satisfiable (non-vacuity) --------------------------------------------- *)
-(* class 0, multi-file, three sub-files at two depths, existing unrelated file: succeeds, reads back *)
+
+(* multi-file, three sub-files at two depths, an existing unrelated file: succeeds, reads back,
+   order = deepest key first *)
 Definition w_good : input :=
-  {| i_multifile := true; i_overwrite := false; i_skipval := false; i_dir_ok := true;
+  {| i_multifile := true; i_overwrite := false; i_skipval := false; i_dir_ok := true; i_alias := false;
      i_main := nm 109; i_fs := [(nm 122, File 7)]; i_valid := true; i_full := Out 9;
      i_subs := [ {| s_depth := 1%nat; s_branch := true; s_name := nm 97; s_src := SrcDump (Out 1) |};
                  {| s_depth := 2%nat; s_branch := true; s_name := nm 98; s_src := SrcDump (Out 2) |};
                  {| s_depth := 1%nat; s_branch := false; s_name := nm 99; s_src := SrcOrig 4 |} ];
      i_mainr := Out 3; i_failcall := None |}.
 
-Example C18_guard_satisfiable_success :
-  classify w_good = 0%N /\ snd (save w_good) = None /\ reparse_ok w_good (fst (save w_good)) = true /\
+Example C18_success_example :
+  alias_clash w_good = false /\
+  save_fixed w_good = ([(nm 122, File 7); (nm 98, File 2); (nm 99, File 4); (nm 97, File 1); (nm 109, File 3)], None) /\
+  reparse_ok w_good (fst (save_fixed w_good)) = true /\
   map s_name (order (i_subs w_good)) = [nm 98; nm 99; nm 97].
 Proof. vm_compute. repeat split. Qed.
 
-(* class 0, failing: invalid configuration in multi-file mode with existing files around *)
-Example C18_guard_satisfiable_failure :
-  let i := {| i_multifile := true; i_overwrite := true; i_skipval := false; i_dir_ok := true;
-              i_main := nm 109; i_fs := [(nm 109, File 7); (nm 97, File 5)]; i_valid := false; i_full := Out 9;
-              i_subs := [ {| s_depth := 1%nat; s_branch := true; s_name := nm 97; s_src := SrcDump (Out 1) |} ];
-              i_mainr := Out 3; i_failcall := None |} in
-  classify i = 0%N /\ save i = (i_fs i, Some EInvalid).
+(* the guard with a target path in non-normal form (./m): no sub-file is named like the main file, so
+   alias_clash is false and the theorems apply *)
+Example C18_guard_satisfiable_with_alias :
+  let i := {| i_multifile := true; i_overwrite := true; i_skipval := false; i_dir_ok := true; i_alias := true;
+              i_main := nm 109; i_fs := [(nm 109, File 7)]; i_valid := true; i_full := Out 9;
+              i_subs := i_subs w_good; i_mainr := Out 3; i_failcall := None |} in
+  alias_clash i = false /\ classify i = 0 /\ snd (save_fixed i) = None /\ reparse_ok i (fst (save_fixed i)) = true.
 Proof. vm_compute. repeat split. Qed.
 
-(* an injected fault on the 2nd serialiser call is a class-2 failure *)
+(* the same call with an existing sub-file c (overwrite=False): the second block in the order refuses,
+   the first (b, already rendered) has not been written *)
+Example C18_subfile_refused_example :
+  let i := {| i_multifile := true; i_overwrite := false; i_skipval := false; i_dir_ok := true; i_alias := false;
+              i_main := nm 109; i_fs := [(nm 99, File 7)]; i_valid := true; i_full := Out 9;
+              i_subs := i_subs w_good; i_mainr := Out 3; i_failcall := None |} in
+  is_file (i_fs i) (nm 99) = true /\ save_fixed i = (i_fs i, Some ERefuse).
+Proof. vm_compute. repeat split. Qed.
+
+(* failing late with overwrite=True and everything pre-existing: the serialisation of the main
+   configuration (the LAST step before writing) raises — all three files keep their content *)
+Example C18_late_failure_example :
+  let i := {| i_multifile := true; i_overwrite := true; i_skipval := false; i_dir_ok := true; i_alias := false;
+              i_main := nm 109; i_fs := [(nm 109, File 7); (nm 97, File 5); (nm 98, File 6)]; i_valid := true;
+              i_full := Fail;
+              i_subs := [ {| s_depth := 1%nat; s_branch := true; s_name := nm 97; s_src := SrcDump (Out 1) |};
+                          {| s_depth := 1%nat; s_branch := true; s_name := nm 98; s_src := SrcDump (Out 2) |} ];
+              i_mainr := Fail; i_failcall := None |} in
+  save_fixed i = (i_fs i, Some ERender).
+Proof. vm_compute. repeat split. Qed.
+
+(* an injected fault on the 2nd serialiser call (0-based 1): nothing written *)
 Example C18_failcall_example :
-  let i := {| i_multifile := true; i_overwrite := true; i_skipval := false; i_dir_ok := true;
+  let i := {| i_multifile := true; i_overwrite := true; i_skipval := false; i_dir_ok := true; i_alias := false;
               i_main := nm 109; i_fs := []; i_valid := true; i_full := Out 9;
               i_subs := [ {| s_depth := 1%nat; s_branch := true; s_name := nm 97; s_src := SrcDump (Out 1) |} ];
               i_mainr := Out 3; i_failcall := Some 1%nat |} in
-  classify i = 2%N /\ save i = ([(nm 97, File 1); (nm 109, File 0)], Some ERender) /\
   save_fixed i = ([], Some ERender).
 Proof. vm_compute. repeat split. Qed.
+
+(* name collision: two sub-configs loaded from a/s.yaml and b/s.yaml *)
+Definition w_clash : input :=
+  {| i_multifile := true; i_overwrite := true; i_skipval := false; i_dir_ok := true; i_alias := false;
+     i_main := nm 109; i_fs := []; i_valid := true; i_full := Out 9;
+     i_subs := [ {| s_depth := 1%nat; s_branch := true; s_name := nm 115; s_src := SrcDump (Out 1) |};
+                 {| s_depth := 1%nat; s_branch := true; s_name := nm 115; s_src := SrcDump (Out 2) |} ];
+     i_mainr := Out 3; i_failcall := None |}.
+
+Example C18_name_collision_example :
+  name_clash w_clash = true /\ save_fixed w_clash = ([], Some EClash).
+Proof. vm_compute. repeat split. Qed.
+
+(* a save_path_content file (text 7) that lives in the directory saved to, overwrite=True: the save
+   succeeds and the file still holds text 7 *)
+Definition w_self : input :=
+  {| i_multifile := true; i_overwrite := true; i_skipval := false; i_dir_ok := true; i_alias := false;
+     i_main := nm 109; i_fs := [(nm 102, File 7)]; i_valid := true; i_full := Out 9;
+     i_subs := [ {| s_depth := 2%nat; s_branch := false; s_name := nm 102; s_src := SrcPathHere |} ];
+     i_mainr := Out 3; i_failcall := None |}.
+
+Example C18_path_content_self_example :
+  save_fixed w_self = ([(nm 102, File 7); (nm 109, File 3)], None) /\
+  reparse_ok w_self (fst (save_fixed w_self)) = true.
+Proof. vm_compute. repeat split. Qed.
+
+(* single-file: invalid configuration over an existing file with overwrite=True — untouched *)
+Definition w_single : input :=
+  {| i_multifile := false; i_overwrite := true; i_skipval := false; i_dir_ok := true; i_alias := false;
+     i_main := nm 120; i_fs := [(nm 120, File 7)]; i_valid := false; i_full := Out 8;
+     i_subs := []; i_mainr := Out 8; i_failcall := None |}.
+
+Example C18_single_file_invalid_example :
+  save_fixed w_single = ([(nm 120, File 7)], Some EInvalid).
+Proof. vm_compute. repeat split. Qed.
+
+(* ---- REGRESSION WITNESSES: what the order of the tree before the fix (save_old) did -------------
+   These are statements about save_old, which is NOT the model of the current code.  They document the
+   four repaired defects (known_findings/C18.txt, `fixed:` lines) and show that the unguarded statements
+   above are not trivialities of the step semantics: the same inputs break them under the old order. *)
+
+(* existing x.yaml (text 7); save(Namespace(k='bad'), 'x.yaml', overwrite=True, multifile=False):
+   TypeError from validation and a zero-byte file *)
+Theorem C18_single_file_truncates_old_order_refuted :
+  exists i f' e, save_old i = (f', Some e) /\ i_multifile i = false /\
+                 lookup (i_fs i) (i_main i) = Some (File 7) /\ lookup f' (i_main i) = Some (File empty_text) /\
+                 save_fixed i = (i_fs i, Some e).
+Proof. exists w_single, [(nm 120, File 0)], EInvalid. vm_compute. repeat split. Qed.
+Print Assumptions C18_single_file_truncates_old_order_refuted.
+
+(* valid configuration with two sub-configs a (text 1) and b; the serialiser fails on b:
+   a has been written, the directory is no longer what it was *)
+Definition w_multi : input :=
+  {| i_multifile := true; i_overwrite := false; i_skipval := false; i_dir_ok := true; i_alias := false;
+     i_main := nm 109; i_fs := []; i_valid := true; i_full := Fail;
+     i_subs := [ {| s_depth := 1%nat; s_branch := true; s_name := nm 97; s_src := SrcDump (Out 1) |};
+                 {| s_depth := 1%nat; s_branch := true; s_name := nm 98; s_src := SrcDump Fail |} ];
+     i_mainr := Out 3; i_failcall := None |}.
+
+Theorem C18_multifile_partial_old_order_refuted :
+  exists i f' e, save_old i = (f', Some e) /\ i_multifile i = true /\
+                 i_fs i = [] /\ lookup f' (nm 97) = Some (File 1) /\
+                 save_fixed i = ([], Some e).
+Proof. exists w_multi, [(nm 97, File 1)], ERender. vm_compute. repeat split. Qed.
+Print Assumptions C18_multifile_partial_old_order_refuted.
+
+(* the last serialisation (main file) fails: every sub-file written and the existing main file emptied *)
+Definition w_multi_main : input :=
+  {| i_multifile := true; i_overwrite := true; i_skipval := false; i_dir_ok := true; i_alias := false;
+     i_main := nm 109; i_fs := [(nm 109, File 7)]; i_valid := true; i_full := Fail;
+     i_subs := [ {| s_depth := 1%nat; s_branch := true; s_name := nm 97; s_src := SrcDump (Out 1) |} ];
+     i_mainr := Fail; i_failcall := None |}.
+
+Theorem C18_multifile_main_truncated_old_order_refuted :
+  exists i f' e, save_old i = (f', Some e) /\
+                 lookup (i_fs i) (i_main i) = Some (File 7) /\ lookup f' (i_main i) = Some (File empty_text) /\
+                 save_fixed i = (i_fs i, Some e).
+Proof. exists w_multi_main, [(nm 109, File 0); (nm 97, File 1)], ERender. vm_compute. repeat split. Qed.
+Print Assumptions C18_multifile_main_truncated_old_order_refuted.
+
+(* both sub-configs are saved as s.yaml, the second silently replaces the first although the save "succeeds" *)
+Theorem C18_subfile_name_collision_old_order_refuted :
+  exists i f', save_old i = (f', None) /\ name_clash i = true /\ reparse_ok i f' = false /\
+               save_fixed i = (i_fs i, Some EClash).
+Proof. exists w_clash, [(nm 115, File 2); (nm 109, File 3)]. vm_compute. repeat split. Qed.
+Print Assumptions C18_subfile_name_collision_old_order_refuted.
+
+(* open(…,"w") came before get_content(): the save succeeds and the content file is empty *)
+Theorem C18_path_content_self_truncate_old_order_refuted :
+  exists i f', save_old i = (f', None) /\
+               lookup (i_fs i) (nm 102) = Some (File 7) /\ lookup f' (nm 102) = Some (File empty_text) /\
+               lookup (fst (save_fixed i)) (nm 102) = Some (File 7).
+Proof. exists w_self, [(nm 102, File 0); (nm 109, File 3)]. vm_compute. repeat split. Qed.
+Print Assumptions C18_path_content_self_truncate_old_order_refuted.
